@@ -106,7 +106,7 @@ func c11Check(res *core.Result, b []byte, model map[string]*hfDef, allTokens map
 				var tokenRun *opc.Node
 				for _, run := range proot.Find(opc.NsW, "r") {
 					for _, t := range run.ChildrenOf(opc.NsW, "t") {
-						text.WriteString(t.Text)
+						text.WriteString(t.ShownText())
 						if def.token != "" && strings.Contains(t.Text, def.token) {
 							tokenRun = run
 						}
@@ -238,8 +238,15 @@ func c11Case(c *core.Ctx) *core.Result {
 			serial++
 			tok := fmt.Sprintf("⟦h%d-%d⟧", c.Case, serial)
 			text := tok + gen.SafeString(r)
-			if r.Chance(1, 12) {
+			switch r.Intn(14) {
+			case 0:
 				tok, text = "", ""
+			case 1:
+				// a blank definition (the usual way to blank the first-page header so that it does not fall back to the running one)
+				tok, text = "", []string{" ", "  ", "   ", "\t", " \t "}[r.Intn(5)]
+			case 2:
+				// blanks at the edges of the text
+				text = []string{" ", "  ", ""}[r.Intn(3)] + text + []string{" ", "  ", "\t"}[r.Intn(3)]
 			}
 			def := &hfDef{token: tok, text: text}
 			var err error
